@@ -252,6 +252,11 @@ def run_chunk(ctx, exe, cases, wd, env):
         blame = None
         if cur is not None and cur not in done and cur in ids:
             blame = cur
+        elif cur is not None and cur in done and r.rc in (0, 7) and not r.timed_out:
+            # the process ended right after reporting `cur` (watchdog exit): nobody else is to blame,
+            # restart with the cases that have not run yet
+            pending = [c for c in pending if c["id"] not in done]
+            continue
         else:
             blame = next((i for i in ids if i not in done), None)
         if blame is None:
